@@ -1,0 +1,131 @@
+//go:build verif
+
+// Contracts for package parse (tdewolff/parse/v2), read by /verif/engine (vcgo).
+// This file contains comments only; it is never compiled into the library.
+package parse
+
+//@ pred bufInv(z) := z != nil && len(z.buf) >= 1 && z.buf[len(z.buf)-1] == 0 &&
+//@     0 <= z.start && z.start <= len(z.buf)-1 && 0 <= z.pos && z.pos <= len(z.buf)-1 &&
+//@     (z.err != nil ==> len(z.buf) == 1)
+//@ pred smallInt(x) := -(1<<60) <= x && x <= (1<<60)
+//@ pred inputInv(z) := bufInv(z) && z.start <= z.pos
+
+//@ func Input.Err
+//@   requires[S] bufInv(z)
+//@   ensures[S]  (result != nil) <==> (z.err != nil || z.pos >= len(z.buf)-1)
+//@   ensures[F]  z.err != nil ==> result == z.err
+//@   ensures[F]  z.err == nil && z.pos >= len(z.buf)-1 ==> result == io.EOF
+
+//@ func Input.PeekErr
+//@   requires[S] bufInv(z) && smallInt(pos)
+//@   ensures[S]  (result != nil) <==> (z.err != nil || z.pos+pos >= len(z.buf)-1)
+//@   ensures[F]  z.err != nil ==> result == z.err
+//@   ensures[F]  z.err == nil && z.pos+pos >= len(z.buf)-1 ==> result == io.EOF
+
+//@ func Input.Peek
+//@   requires[S] bufInv(z) && 0 <= z.pos+pos && z.pos+pos <= len(z.buf)-1
+//@   ensures[S]  result == z.buf[z.pos+pos]
+
+//@ func Input.Move
+//@   requires[S] bufInv(z) && 0 <= z.pos+n && z.pos+n <= len(z.buf)-1
+//@   ensures[S]  z.pos == old(z.pos)+n
+
+//@ func Input.PeekRune
+//@   requires[S] bufInv(z) && 0 <= pos && z.pos+pos <= len(z.buf)-1
+//@   ensures[S]  1 <= result1 && result1 <= 4
+//@   ensures[S]  z.pos+pos < len(z.buf)-1 ==> z.pos+pos+result1 <= len(z.buf)-1
+
+//@ func Input.MoveRune
+//@   requires[S] bufInv(z)
+//@   requires[S] z.pos < len(z.buf)-1
+//@   ensures[S]  old(z.pos) < z.pos && z.pos <= old(z.pos)+4 && z.pos <= len(z.buf)-1
+
+//@ func Input.Pos
+//@   requires[S] bufInv(z)
+//@   ensures[S]  result == z.pos - z.start
+
+//@ func Input.Rewind
+//@   requires[S] bufInv(z) && 0 <= z.start+pos && z.start+pos <= len(z.buf)-1
+//@   ensures[S]  z.pos == z.start+pos
+
+//@ func Input.Lexeme
+//@   requires[S] inputInv(z)
+//@   ensures[S]  sameMem(result, z.buf[z.start:z.pos]) && cap(result) == len(result)
+
+//@ func Input.Skip
+//@   requires[S] z != nil
+//@   ensures[S]  z.start == z.pos
+
+//@ func Input.Shift
+//@   requires[S] inputInv(z)
+//@   ensures[S]  sameMem(result, z.buf[old(z.start):z.pos]) && cap(result) == len(result)
+//@   ensures[S]  z.start == z.pos
+
+//@ func Input.Offset
+//@   requires[S] z != nil
+//@   ensures[S]  result == z.pos
+
+//@ func Input.Bytes
+//@   requires[S] bufInv(z)
+//@   ensures[S]  sameMem(result, z.buf[0:len(z.buf)-1]) && cap(result) == len(result)
+
+//@ func Input.Len
+//@   requires[S] bufInv(z)
+//@   ensures[S]  result == len(z.buf)-1
+
+//@ func Input.Reset
+//@   requires[S] z != nil
+//@   ensures[S]  z.start == 0 && z.pos == 0
+
+// ---- constructors
+//@ func NewInputBytes
+//@   ensures[S]  result != nil && bufInv(result) && result.pos == 0 && result.start == 0
+//@   ensures[F]  result.err == nil && len(result.buf) == len(b)+1
+//@   ensures[F]  forall(i, 0, len(b), result.buf[i] == old(b[i]))
+//@   ensures[F,C12] @frame: sameBytesExcept(ptr(b)+len(b), ptr(b)+len(b)+1)
+//@   ensures[F,C12] @borrow: len(b) == 0 || cap(b) == len(b) ==> sameBytesExcept(0, 0)
+
+//@ func NewInputString
+//@   ensures[S]  result != nil && bufInv(result) && result.pos == 0 && result.start == 0
+//@   ensures[F]  result.err == nil && len(result.buf) == len(s)+1
+//@   ensures[F]  sameBytesExcept(0, 0)
+
+//@ func NewInput
+//@   ensures[S]  result != nil && bufInv(result) && result.pos == 0 && result.start == 0
+
+// ---- errors
+// NewErrorLexer renders the position of the cursor. It reads l through l.Bytes(), whose capacity is clipped,
+// so the private Input built by Position copies the bytes instead of borrowing a terminator slot.
+//@ func NewErrorLexer
+//@   trusted
+//@   pure
+//@   requires[S] bufInv(l)
+//@   ensures[S]  result != nil && sameBytes()
+
+// ---- util.go helpers (C16)
+//@ pred lowerOf(c) := ite('A' <= c && c <= 'Z', c + 32, c)
+//@ pred isWS(c) := c == ' ' || c == '\t' || c == '\n' || c == '\r' || c == '\f'
+
+//@ func Copy
+//@   ensures[S]  len(dst) == len(src) && cap(dst) == len(src) && fresh(dst) && sameBytesExcept(0, 0)
+//@   ensures[F,C16]  forall(i, 0, len(src), dst[i] == old(src[i]))
+
+//@ func ToLower
+//@   ensures[S]  sameSlice(result, src) && sameBytesExcept(ptr(src), ptr(src)+len(src))
+//@   ensures[S,C16]  forall(i, 0, len(src), src[i] == lowerOf(old(src[i])))
+//@   loop 1 invariant -1 <= rangeindex && rangeindex < len(src) && sameBytesExcept(ptr(src), ptr(src)+len(src))
+//@   loop 1 invariant forall(j, 0, rangeindex+1, src[j] == lowerOf(old(src[j]))) && forall(j, rangeindex+1, len(src), src[j] == old(src[j]))
+//@   loop 1 decreases len(src) - rangeindex
+
+//@ func EqualFold
+//@   ensures[F,C16]  result ==> len(s) == len(targetLower) && forall(i, 0, len(s), s[i] == targetLower[i] || ('A' <= s[i] && s[i] <= 'Z' && s[i] + 32 == targetLower[i]))
+//@   ensures[F,C16]  !result ==> len(s) != len(targetLower) || exists(i, 0, len(s), !(s[i] == targetLower[i] || ('A' <= s[i] && s[i] <= 'Z' && s[i] + 32 == targetLower[i])))
+//@   loop 1 invariant -1 <= rangeindex && rangeindex < len(targetLower) && len(s) == len(targetLower)
+//@   loop 1 invariant[F] forall(j, 0, rangeindex+1, s[j] == targetLower[j] || ('A' <= s[j] && s[j] <= 'Z' && s[j] + 32 == targetLower[j]))
+//@   loop 1 decreases len(targetLower) - rangeindex
+
+//@ func IsWhitespace
+//@   ensures[F,C16]  result <==> isWS(c)
+
+//@ func IsNewline
+//@   ensures[F,C16]  result <==> (c == '\n' || c == '\r')
